@@ -463,10 +463,20 @@ impl ClusterActor {
             .map(|w| w.get())
             .unwrap_or(0);
 
+        // Only sequences below the watermark are confirmed: the last readable one is
+        // watermark - 1
+        let Some(latest_confirmed_sequence) = watermark.checked_sub(1) else {
+            reply_sender.send(Ok(PartitionEvents {
+                events: Vec::new(),
+                has_more: false,
+            }));
+            return;
+        };
+
         // Adjust end_sequence to respect watermark
         let effective_end_sequence = match end_sequence {
-            Some(end) => end.min(watermark),
-            None => watermark,
+            Some(end) => end.min(latest_confirmed_sequence),
+            None => latest_confirmed_sequence,
         };
 
         debug!(
@@ -479,8 +489,8 @@ impl ClusterActor {
             "reading partition locally"
         );
 
-        // If start_sequence is beyond watermark, no events to return
-        if start_sequence > watermark {
+        // If start_sequence is beyond the confirmed range, no events to return
+        if start_sequence > latest_confirmed_sequence {
             reply_sender.send(Ok(PartitionEvents {
                 events: Vec::new(),
                 has_more: false,
@@ -507,7 +517,10 @@ impl ClusterActor {
 
             'iter: while let Some(commits) = match iter
                 .next_batch(
-                    (effective_end_sequence.saturating_sub(last_read_sequence) as usize)
+                    // The end is inclusive: one more than the distance remains to be read
+                    (effective_end_sequence
+                        .saturating_sub(last_read_sequence)
+                        .saturating_add(1) as usize)
                         .min(DEFAULT_BATCH_SIZE),
                 )
                 .await
@@ -669,7 +682,7 @@ impl ClusterActor {
 
                         // Check if event is beyond watermark (safety check - uses
                         // partition_sequence)
-                        if event.partition_sequence > watermark {
+                        if event.partition_sequence >= watermark {
                             break 'iter;
                         }
 
